@@ -406,7 +406,52 @@ func ruleIDX6(c *Ctx) []Ob {
 						stack = append(stack, s)
 					}
 				}
-				if skipped {
+				// can the function return success without entering the loop at all (an early return ahead of
+				// it)? Only an emptiness test of a slice or the absence of the document may decide that.
+				bypass := ""
+				if ei := errResultIndex(fn.Signature); ei >= 0 && !skipped {
+					emptyEdges := guardEdges(fn, func(cond ssa.Value, branch bool) bool {
+						b, ok := cond.(*ssa.BinOp)
+						if !ok {
+							return false
+						}
+						isLen := func(v ssa.Value) bool {
+							cl, ok := v.(*ssa.Call)
+							if !ok {
+								return false
+							}
+							bi, ok := cl.Call.Value.(*ssa.Builtin)
+							return ok && bi.Name() == "len"
+						}
+						zero := func(v ssa.Value) bool { k, ok := constInt(v); return ok && k == 0 }
+						// "there is no such document": nothing to remove entries of
+						if c.libNamedIs(b.X.Type(), "document", "Document") && isNilConst(b.Y) {
+							return (b.Op == token.EQL && branch) || (b.Op == token.NEQ && !branch)
+						}
+						if !(isLen(b.X) && zero(b.Y)) {
+							return false
+						}
+						return (b.Op == token.EQL && branch) || (b.Op == token.NEQ && !branch) || (b.Op == token.GTR && !branch) || (b.Op == token.LEQ && branch)
+					})
+					for _, ret := range returnsOf(fn) {
+						if h.Dominates(ret.Block()) {
+							continue
+						}
+						rv, ok := returnedValue(ret, ei)
+						if !ok || !(isNilConst(rv) || !c.provablyNonNil(fn, rv, ret.Block())) {
+							continue
+						}
+						// paths on which the returned error is known to be non-nil are failures, not successes
+						cutEdges := append(append([]edge{}, emptyEdges...), nonNilEdges(fn, sameValue(rv))...)
+						if guardedBy(fn, ret.Block(), cutEdges) {
+							continue
+						}
+						bypass = relPath(c, ret.Pos())
+					}
+				}
+				if bypass != "" {
+					o.add(VIOLATED, key, pos, "the function can return success at %s without entering the loop over the indexes: for the documents that take this path no index is maintained (entries are left behind / never written), while scans through an index assume exactly one entry per live document", bypass)
+				} else if skipped {
 					o.add(VIOLATED, key, pos, "an iteration of the loop over the indexes can complete without calling Index.%s: some (document, index) pairs get no entry / keep a stale one, while scans through that index assume exactly one entry per document (an absent field is indexed as nil)", what)
 				} else {
 					o.add(OK, key, pos, "every iteration of the loop reaches the call (or leaves the function with an error)")
@@ -685,6 +730,20 @@ func (c *Ctx) bufferBases(v ssa.Value, env *bufEnv, depth int, seen map[ssa.Valu
 		if env != nil {
 			if b, ok := env.bind[x]; ok {
 				c.bufferBases(b, env.parent, depth, seen, out)
+				return
+			}
+		}
+		// not bound by the chain of calls followed so far: every static call site of the function
+		// (context-insensitive). A function nobody calls receives the user's own slice.
+		fn := x.Parent()
+		for i, p := range fn.Params {
+			if p != x {
+				continue
+			}
+			for _, cs := range c.staticCallers(fn) {
+				if i < len(cs.Common().Args) {
+					c.bufferBases(cs.Common().Args[i], nil, depth+1, seen, out)
+				}
 			}
 		}
 	case *ssa.Extract:
@@ -701,9 +760,72 @@ func (c *Ctx) bufferBases(v ssa.Value, env *bufEnv, depth int, seen map[ssa.Valu
 				}
 				return
 			}
+			if fa, ok := x.X.(*ssa.FieldAddr); ok && c.freshObject(fa.X) {
+				// a field of an object made for this one encoding (e := &encoder{...}): not storage that
+				// outlives the call; the slice is whatever was stored into that field
+				for _, sv := range c.storesToField(fa) {
+					c.bufferBases(sv, nil, depth+1, seen, out)
+				}
+				return
+			}
 			*out = append(*out, v) // load of a field / global / element
 		}
 	}
+}
+
+// freshObject: every origin of the pointer v (through parameters and library results) is an
+// allocation made by the library whose address is never stored anywhere.
+func (c *Ctx) freshObject(v ssa.Value) bool {
+	ogs := c.deepOrigins(v)
+	if len(ogs) == 0 {
+		return false
+	}
+	for _, og := range ogs {
+		al, ok := og.(*ssa.Alloc)
+		if !ok {
+			return false
+		}
+		if refs := al.Referrers(); refs != nil {
+			for _, r := range *refs {
+				if st, ok := r.(*ssa.Store); ok && st.Val == ssa.Value(al) {
+					return false // the address is kept somewhere
+				}
+				if _, ok := r.(*ssa.MakeInterface); ok {
+					return false
+				}
+			}
+		}
+	}
+	return true
+}
+
+// storesToField: the values stored anywhere in the library into the field fa addresses
+// (same struct type, same field).
+func (c *Ctx) storesToField(fa *ssa.FieldAddr) []ssa.Value {
+	var out []ssa.Value
+	pt, ok := fa.X.Type().Underlying().(*types.Pointer)
+	if !ok {
+		return nil
+	}
+	for _, fn := range c.LibFuncs {
+		for _, b := range fn.Blocks {
+			for _, in := range b.Instrs {
+				st, ok := in.(*ssa.Store)
+				if !ok {
+					continue
+				}
+				f2, ok := st.Addr.(*ssa.FieldAddr)
+				if !ok || f2.Field != fa.Field {
+					continue
+				}
+				p2, ok := f2.X.Type().Underlying().(*types.Pointer)
+				if ok && types.Identical(p2.Elem(), pt.Elem()) {
+					out = append(out, st.Val)
+				}
+			}
+		}
+	}
+	return out
 }
 
 func (c *Ctx) bufferBasesCall(call *ssa.Call, idx int, env *bufEnv, depth int, seen map[ssa.Value]int, out *[]ssa.Value) {
@@ -793,15 +915,20 @@ func ruleKEY6(c *Ctx) []Ob {
 	o := newObs(c, "KEY6")
 	for _, fn := range c.LibFuncs {
 		allCalls(fn, func(call ssa.CallInstruction) {
-			g := staticCallee(call)
-			if g == nil || g.Pkg == nil || g.Pkg.Pkg.Path() != "github.com/google/orderedcode" || g.Name() != "Append" {
+			itemsArg := c.appendItemsArg(call)
+			if itemsArg == nil {
 				return
 			}
 			key := c.fname(fn) + "/orderedcode.Append items"
 			pos := relPath(c, call.Pos())
 			bad := ""
-			items, ok := c.keys().sprintfArgs(call.Common().Args[1])
+			items, ok := c.keys().sprintfArgs(itemsArg)
 			if !ok {
+				// a forwarder handing on its own variadic parameter: the items are checked at its call sites
+				if p, isParam := itemsArg.(*ssa.Parameter); isParam && fn.Signature.Variadic() && len(fn.Params) > 0 && p == fn.Params[len(fn.Params)-1] && len(c.staticCallers(fn)) > 0 {
+					o.add(OK, key, pos, "forwards its variadic parameter: the items are checked at the %d call sites of %s", len(c.staticCallers(fn)), c.fname(fn))
+					return
+				}
 				o.add(UNDECIDED, key, pos, "the items passed to orderedcode.Append are not a literal argument list")
 				return
 			}
@@ -2435,6 +2562,56 @@ func (c *Ctx) writeCutBlocks(fn *ssa.Function, busy map[*ssa.Function]bool, dele
 // in two zones, are equal - the stored types and zone would silently stay.)
 func ruleWRITE1(c *Ctx) []Ob {
 	o := newObs(c, "WRITE1")
+	// check: from `call` (the updater call, or a call to a helper that runs the updater and hands back
+	// the new document) in block b of fn, every successful path writes or deletes the record
+	check := func(fn *ssa.Function, b *ssa.BasicBlock, i int, call *ssa.Call, key string) {
+		pos := relPath(c, call.Pos())
+		cut := c.writeCutBlocks(fn, map[*ssa.Function]bool{}, true)
+		// a write later in the updater's own block
+		sameBlock := false
+		for _, in2 := range b.Instrs[i+1:] {
+			if c2, ok := in2.(*ssa.Call); ok {
+				if c.isInvokeOf(c2, "store", "Tx", "Set") || c.isInvokeOf(c2, "store", "Tx", "Delete") {
+					sameBlock = true
+				}
+				if g := staticCallee(c2); g != nil && c.IsLib(c.declared(g)) && c.eff(c.declared(g))&EffDocWrite != 0 && c.mustWriteDoc(c.declared(g), map[*ssa.Function]bool{}) {
+					sameBlock = true
+				}
+			}
+		}
+		if sameBlock {
+			o.add(OK, key, pos, "the record is written in the same block as the updater call")
+			return
+		}
+		var from []edge2
+		for _, sc := range b.Succs {
+			from = append(from, edge2{b, sc})
+		}
+		bad := c.successWithoutCut(fn, from, cut, b)
+		if bad == "" {
+			o.add(OK, key, pos, "every path from the updater call to a success return or to the next document passes through a call that certainly writes (or deletes) the record")
+		} else {
+			o.add(VIOLATED, key, pos, "a path leads from the updater call to %s without the document record being written or deleted: the update is acknowledged but what is stored keeps its old value, type or zone", bad)
+		}
+	}
+	// handsBack: fn writes nothing itself and returns what the updater produced: its callers write it
+	handsBack := func(fn *ssa.Function, call *ssa.Call) bool {
+		if fn.Parent() != nil || c.eff(fn)&(EffDocWrite|EffTxSet|EffTxDelete) != 0 {
+			return false
+		}
+		for _, ret := range returnsOf(fn) {
+			for k := range ret.Results {
+				if rv, ok := returnedValue(ret, k); ok {
+					for _, og := range origins(rv) {
+						if og == ssa.Value(call) {
+							return true
+						}
+					}
+				}
+			}
+		}
+		return false
+	}
 	for _, fn := range c.LibFuncs {
 		if c.pkgRel(fn) != "" {
 			continue
@@ -2451,34 +2628,24 @@ func ruleWRITE1(c *Ctx) []Ob {
 				if n > 1 {
 					key = fmt.Sprintf("%s #%d", key, n)
 				}
-				pos := relPath(c, call.Pos())
-				cut := c.writeCutBlocks(fn, map[*ssa.Function]bool{}, true)
-				// a write later in the updater's own block
-				sameBlock := false
-				for _, in2 := range b.Instrs[i+1:] {
-					if c2, ok := in2.(*ssa.Call); ok {
-						if c.isInvokeOf(c2, "store", "Tx", "Set") || c.isInvokeOf(c2, "store", "Tx", "Delete") {
-							sameBlock = true
+				if handsBack(fn, call) {
+					sites := c.staticCallers(fn)
+					if len(sites) > 0 {
+						for k, cs := range sites {
+							hc, ok := cs.(*ssa.Call)
+							if !ok {
+								continue
+							}
+							hkey := c.fname(hc.Parent()) + "/updated document is written"
+							if k > 0 {
+								hkey = fmt.Sprintf("%s #%d", hkey, k+1)
+							}
+							check(hc.Parent(), hc.Block(), instrIndex(hc), hc, hkey)
 						}
-						if g := staticCallee(c2); g != nil && c.IsLib(c.declared(g)) && c.eff(c.declared(g))&EffDocWrite != 0 && c.mustWriteDoc(c.declared(g), map[*ssa.Function]bool{}) {
-							sameBlock = true
-						}
+						continue
 					}
 				}
-				if sameBlock {
-					o.add(OK, key, pos, "the record is written in the same block as the updater call")
-					continue
-				}
-				var from []edge2
-				for _, sc := range b.Succs {
-					from = append(from, edge2{b, sc})
-				}
-				bad := c.successWithoutCut(fn, from, cut, b)
-				if bad == "" {
-					o.add(OK, key, pos, "every path from the updater call to a success return or to the next document passes through a call that certainly writes (or deletes) the record")
-				} else {
-					o.add(VIOLATED, key, pos, "a path leads from the updater call to %s without the document record being written or deleted: the update is acknowledged but what is stored keeps its old value, type or zone", bad)
-				}
+				check(fn, b, i, call, key)
 			}
 		}
 	}
@@ -3041,7 +3208,20 @@ func ruleADP9(c *Ctx) []Ob {
 			})
 			allCalls(f, func(ci ssa.CallInstruction) {
 				if calleeFullName(ci) != "(*go.etcd.io/bbolt.Cursor).Prev" {
-					return
+					// or a helper of the adapter that steps back (it calls Prev, possibly retrying)
+					g := staticCallee(ci)
+					if g == nil || !c.IsLib(c.declared(g)) || seenF[c.declared(g)] {
+						return
+					}
+					steps := false
+					allCalls(c.declared(g), func(inner ssa.CallInstruction) {
+						if calleeFullName(inner) == "(*go.etcd.io/bbolt.Cursor).Prev" {
+							steps = true
+						}
+					})
+					if !steps {
+						return
+					}
 				}
 				if !guardedBy(f, ci.Block(), nonNilEdges(f, isKey(f))) {
 					return // the nil-result case, (b)
@@ -4166,6 +4346,16 @@ func ruleADP10(c *Ctx) []Ob {
 						return true
 					}
 				}
+			case *ssa.Call:
+				// a library predicate given the target: does its result look at the target's length?
+				if g := staticCallee(x); g != nil && c.IsLib(c.declared(g)) {
+					g = c.declared(g)
+					for i, a := range x.Call.Args {
+						if i < len(g.Params) && (a == keyP || sameOrigin(a, keyP)) && c.resultDependsOnLenOf(g, g.Params[i]) {
+							return true
+						}
+					}
+				}
 			case *ssa.UnOp:
 				if x.Op == token.NOT {
 					return dependsOnLen(x.X, seen)
@@ -4207,6 +4397,48 @@ func ruleADP10(c *Ctx) []Ob {
 		o.add(INFO, "badger adapter", "-", "no store.Cursor.Seek implementation calls badger's Iterator.Seek")
 	}
 	return o.list
+}
+
+// resultDependsOnLenOf: some returned value of g is computed from len(p).
+func (c *Ctx) resultDependsOnLenOf(g *ssa.Function, p *ssa.Parameter) bool {
+	var dep func(v ssa.Value, seen map[ssa.Value]bool) bool
+	dep = func(v ssa.Value, seen map[ssa.Value]bool) bool {
+		if v == nil || seen[v] {
+			return false
+		}
+		seen[v] = true
+		switch x := v.(type) {
+		case *ssa.Call:
+			if b, ok := x.Common().Value.(*ssa.Builtin); ok && b.Name() == "len" {
+				return x.Common().Args[0] == ssa.Value(p) || sameOrigin(x.Common().Args[0], p)
+			}
+		case *ssa.BinOp:
+			return dep(x.X, seen) || dep(x.Y, seen)
+		case *ssa.UnOp:
+			return dep(x.X, seen)
+		case *ssa.Phi:
+			// a short-circuit && / || : the edges, and the conditions deciding which edge is taken
+			for _, e := range x.Edges {
+				if dep(e, seen) {
+					return true
+				}
+			}
+			for _, pb := range x.Block().Preds {
+				if iff, ok := pb.Instrs[len(pb.Instrs)-1].(*ssa.If); ok && dep(iff.Cond, seen) {
+					return true
+				}
+			}
+		}
+		return false
+	}
+	for _, ret := range returnsOf(g) {
+		for i := range ret.Results {
+			if rv, ok := returnedValue(ret, i); ok && dep(rv, map[ssa.Value]bool{}) {
+				return true
+			}
+		}
+	}
+	return false
 }
 
 // ---------------------------------------------------------------- IDX8
@@ -5274,36 +5506,207 @@ func ruleNIL3(c *Ctx) []Ob {
 // the decoder for more (More / Token / a second Decode) and looks at the answer.
 func ruleIMP2(c *Ctx) []Ob {
 	o := newObs(c, "IMP2")
+	isDecoder := func(t types.Type) bool { return namedIs(t, "encoding/json", "Decoder") }
+	// fromDecoderCall: v is the error reported by Token / Decode of a json.Decoder
+	fromDecoderCall := func(v ssa.Value) bool {
+		for _, og := range origins(v) {
+			var call *ssa.Call
+			switch x := og.(type) {
+			case *ssa.Call:
+				call = x
+			case *ssa.Extract:
+				call, _ = x.Tuple.(*ssa.Call)
+			}
+			if call == nil {
+				continue
+			}
+			switch calleeFullName(call) {
+			case "(*encoding/json.Decoder).Token", "(*encoding/json.Decoder).Decode":
+				return true
+			}
+		}
+		return false
+	}
+	isEOF := func(v ssa.Value) bool {
+		g := globalLoad(v)
+		return g != nil && g.Pkg != nil && g.Pkg.Pkg.Path() == "io" && g.Name() == "EOF"
+	}
+	// eofEdges: edges on which the decoder is known to have reported the end of its input
+	eofEdges := func(fn *ssa.Function) []edge {
+		return guardEdges(fn, func(cond ssa.Value, branch bool) bool {
+			if b, ok := cond.(*ssa.BinOp); ok && (b.Op == token.EQL || b.Op == token.NEQ) {
+				if (isEOF(b.Y) && fromDecoderCall(b.X)) || (isEOF(b.X) && fromDecoderCall(b.Y)) {
+					return (b.Op == token.EQL) == branch
+				}
+			}
+			if call, ok := cond.(*ssa.Call); ok && calleeFullName(call) == "errors.Is" && len(call.Call.Args) == 2 {
+				if isEOF(call.Call.Args[1]) && fromDecoderCall(call.Call.Args[0]) {
+					return branch
+				}
+			}
+			return false
+		})
+	}
+	successReturns := func(fn *ssa.Function) []*ssa.Return {
+		var out []*ssa.Return
+		ei := errResultIndex(fn.Signature)
+		for _, ret := range returnsOf(fn) {
+			if ei < 0 {
+				out = append(out, ret)
+				continue
+			}
+			if rv, ok := returnedValue(ret, ei); ok && c.provablyNonNil(fn, rv, ret.Block()) {
+				continue
+			}
+			out = append(out, ret)
+		}
+		return out
+	}
+	// checked(g): a helper that is given a decoder and succeeds only when the decoder is exhausted
+	memo := map[*ssa.Function]int{}
+	var guards func(fn *ssa.Function, depth int) []edge
+	var checked func(g *ssa.Function, depth int) bool
+	checked = func(g *ssa.Function, depth int) bool {
+		if v, ok := memo[g]; ok {
+			return v == 1
+		}
+		memo[g] = 0
+		if depth > 3 || len(g.Blocks) == 0 || errResultIndex(g.Signature) < 0 {
+			return false
+		}
+		hasDec := false
+		for _, p := range g.Params {
+			if isDecoder(p.Type()) {
+				hasDec = true
+			}
+		}
+		if !hasDec {
+			return false
+		}
+		es := guards(g, depth+1)
+		for _, ret := range successReturns(g) {
+			if !guardedBy(g, ret.Block(), es) {
+				return false
+			}
+		}
+		memo[g] = 1
+		return true
+	}
+	guards = func(fn *ssa.Function, depth int) []edge {
+		es := eofEdges(fn)
+		// the nil-error edge of a call to a checked helper
+		allCalls(fn, func(ci ssa.CallInstruction) {
+			call, ok := ci.(*ssa.Call)
+			if !ok {
+				return
+			}
+			g := staticCallee(call)
+			if g == nil || !c.IsLib(c.declared(g)) || !checked(c.declared(g), depth) {
+				return
+			}
+			ei := errResultIndex(g.Signature)
+			same := func(x ssa.Value) bool {
+				if g.Signature.Results().Len() == 1 {
+					return sameValue(call)(x)
+				}
+				ex, ok := x.(*ssa.Extract)
+				return ok && ex.Tuple == ssa.Value(call) && ex.Index == ei
+			}
+			es = append(es, nilEdges(fn, same)...)
+		})
+		return es
+	}
 	n := 0
 	for _, fn := range c.LibFuncs {
-		var decodes []ssa.CallInstruction
+		var made []ssa.CallInstruction
 		allCalls(fn, func(ci ssa.CallInstruction) {
-			if calleeFullName(ci) == "(*encoding/json.Decoder).Decode" {
-				decodes = append(decodes, ci)
+			if calleeFullName(ci) == "encoding/json.NewDecoder" {
+				made = append(made, ci)
 			}
 		})
-		if len(decodes) == 0 {
+		if len(made) == 0 {
 			continue
 		}
 		n++
 		key := c.fname(fn) + "/nothing follows the decoded value"
-		checked := len(decodes) > 1
+		pos := relPath(c, made[0].Pos())
+		es := guards(fn, 0)
+		bad := ""
+		for _, ret := range successReturns(fn) {
+			// only returns the decoder's creation can reach
+			if made[0].Block() != ret.Block() && !reachableFrom(made[0].Block(), false)[ret.Block()] {
+				continue
+			}
+			if !guardedBy(fn, ret.Block(), es) {
+				bad = relPath(c, ret.Pos())
+			}
+		}
+		// a top-level null decodes into a nil slice / map / pointer without an error: it is not a list
+		// of documents, and success must lie behind a nil test of what was decoded
 		allCalls(fn, func(ci ssa.CallInstruction) {
-			switch calleeFullName(ci) {
-			case "(*encoding/json.Decoder).More", "(*encoding/json.Decoder).Token", "(*encoding/json.Decoder).Buffered":
-				if v, ok := ci.(ssa.Value); ok && len(realReferrers(v)) > 0 {
-					checked = true
+			if calleeFullName(ci) != "(*encoding/json.Decoder).Decode" || len(ci.Common().Args) < 2 {
+				return
+			}
+			var target *ssa.Alloc
+			for _, og := range origins(ci.Common().Args[1]) {
+				if mi, ok := og.(*ssa.MakeInterface); ok {
+					og = mi.X
+				}
+				if al, ok := og.(*ssa.Alloc); ok {
+					target = al
 				}
 			}
+			if target == nil {
+				return
+			}
+			pt, ok := target.Type().Underlying().(*types.Pointer)
+			if !ok {
+				return
+			}
+			switch pt.Elem().Underlying().(type) {
+			case *types.Slice, *types.Map, *types.Pointer:
+			default:
+				return
+			}
+			nkey := c.fname(fn) + "/a top-level null is refused"
+			nn := nonNilEdges(fn, func(x ssa.Value) bool {
+				u, ok := x.(*ssa.UnOp)
+				return ok && u.Op == token.MUL && u.X == ssa.Value(target)
+			})
+			nbad := ""
+			for _, ret := range successReturns(fn) {
+				if ci.Block() != ret.Block() && !reachableFrom(ci.Block(), false)[ret.Block()] {
+					continue
+				}
+				if !guardedBy(fn, ret.Block(), nn) {
+					nbad = relPath(c, ret.Pos())
+				}
+			}
+			if nbad == "" {
+				o.add(OK, nkey, relPath(c, ci.Pos()), "success lies behind a nil test of the decoded value")
+			} else {
+				o.add(VIOLATED, nkey, relPath(c, ci.Pos()), "the function can succeed at %s without having looked at whether the decoded %s is nil: a file containing only `null` decodes without an error, and an empty collection is created from a file that holds no list of documents", nbad, typeString(pt.Elem()))
+			}
 		})
-		if checked {
-			o.add(OK, key, relPath(c, decodes[0].Pos()), "the decoder is asked for what follows the value")
-		} else {
-			o.add(VIOLATED, key, relPath(c, decodes[0].Pos()), "json.Decoder.Decode reads one value and stops: whatever follows it in the file is never looked at, so `[{...}] }}} garbage` is imported as if it were well-formed")
+		usesMore := false
+		for f := range c.staticReach(fn) {
+			allCalls(f, func(ci ssa.CallInstruction) {
+				if calleeFullName(ci) == "(*encoding/json.Decoder).More" {
+					usesMore = true
+				}
+			})
+		}
+		switch {
+		case bad == "":
+			o.add(OK, key, pos, "every successful return behind the decoder is reached only after Token/Decode reported io.EOF (directly or in a helper given the decoder)")
+		case usesMore:
+			o.add(VIOLATED, key, pos, "the function can succeed at %s without the decoder having reported io.EOF; Decoder.More is not that test (it is false in front of a stray `]` or `}`), so `[{...}]] anything` is imported as if it were well-formed", bad)
+		default:
+			o.add(VIOLATED, key, pos, "the function can succeed at %s without the decoder having reported io.EOF: json.Decoder.Decode reads one value and stops, whatever follows it in the file is never looked at, so `[{...}] }}} garbage` is imported as if it were well-formed", bad)
 		}
 	}
 	if n == 0 {
-		o.add(INFO, "decoders", "-", "no json.Decoder.Decode in the library")
+		o.add(INFO, "decoders", "-", "no json.NewDecoder in the library")
 	}
 	return o.list
 }
@@ -5904,4 +6307,456 @@ func derefUse(r ssa.Instruction, v ssa.Value) string {
 		return "a field of it is accessed"
 	}
 	return ""
+}
+
+// ---------------------------------------------------------------- ADP12
+
+// ADP12: one store.Tx is one backend transaction from Begin to Commit/Rollback.
+// The backend's transaction-ending and transaction-opening calls ((*badger.Txn).Commit,
+// CommitWith, Discard, (*badger.DB).NewTransaction / Update / View, (*bbolt.Tx).Commit,
+// Rollback, (*bbolt.DB).Begin / Update / View / Batch) appear only in what the adapter's
+// Begin, Commit and Rollback (and Open/Close) reach. A Set or Delete that commits what
+// was written so far and carries on in a fresh backend transaction ("chunking" a write
+// that badger reports as too big) silently splits one clover operation into several
+// durable steps: a later failure leaves the earlier chunks behind.
+func ruleADP12(c *Ctx) []Ob {
+	o := newObs(c, "ADP12")
+	allowed := map[*ssa.Function]bool{}
+	for _, m := range [][2]string{{"Store", "Begin"}, {"Store", "Close"}, {"Tx", "Commit"}, {"Tx", "Rollback"}} {
+		for _, f := range c.storeImpls(m[0], m[1]) {
+			for g := range c.staticReach(f) {
+				allowed[g] = true
+			}
+		}
+	}
+	// the constructors: package-level functions of the adapters that return a store.Store
+	for _, fn := range c.LibFuncs {
+		if !strings.HasPrefix(c.pkgRel(fn), "store/") || fn.Parent() != nil || fn.Signature.Recv() != nil {
+			continue
+		}
+		res := fn.Signature.Results()
+		for i := 0; i < res.Len(); i++ {
+			if c.libNamedIs(res.At(i).Type(), "store", "Store") {
+				for g := range c.staticReach(fn) {
+					allowed[g] = true
+				}
+			}
+		}
+	}
+	isTxLifecycle := func(full string) string {
+		for _, suf := range []string{
+			"badger/v4.Txn).Commit", "badger/v4.Txn).CommitWith", "badger/v4.Txn).Discard",
+			"badger/v4.DB).NewTransaction", "badger/v4.DB).NewTransactionAt", "badger/v4.DB).Update", "badger/v4.DB).View", "badger/v4.DB).NewWriteBatch",
+			"bbolt.Tx).Commit", "bbolt.Tx).Rollback", "bbolt.DB).Begin", "bbolt.DB).Update", "bbolt.DB).View", "bbolt.DB).Batch",
+		} {
+			if strings.HasSuffix(full, suf) {
+				return suf
+			}
+		}
+		return ""
+	}
+	n := 0
+	for _, fn := range c.LibFuncs {
+		if !strings.HasPrefix(c.pkgRel(fn), "store/") {
+			continue
+		}
+		k := 0
+		allCalls(fn, func(ci ssa.CallInstruction) {
+			what := isTxLifecycle(calleeFullName(ci))
+			if what == "" {
+				return
+			}
+			n++
+			k++
+			key := fmt.Sprintf("%s/backend transaction call (%s", c.fname(fn), what)
+			if k > 1 {
+				key += fmt.Sprintf(" #%d", k)
+			}
+			root := rootFunc(fn)
+			if allowed[fn] || allowed[root] {
+				o.add(OK, key, relPath(c, ci.Pos()), "inside what the adapter's constructor, Begin, Commit, Rollback or Close reach")
+			} else {
+				o.add(VIOLATED, key, relPath(c, ci.Pos()), "%s ends or opens a backend transaction outside the adapter's Begin, Commit and Rollback: one store.Tx no longer is one backend transaction, so what a clover operation wrote before this point can become durable although the operation later fails or is rolled back", c.fname(fn))
+			}
+		})
+	}
+	if n == 0 {
+		o.add(UNDECIDED, "adapters", "-", "no backend transaction call found in the store adapters")
+	}
+	return o.list
+}
+
+// ---------------------------------------------------------------- NORM5
+
+// NORM5: a field reference is left un-normalised inside a list operand only
+// where it is resolved per document. In and Contains resolve the elements of
+// their list when the criterion is evaluated; for every other operator a list
+// is an array literal that may become the bound of an index range, where a raw
+// *field meets internal.Compare and panics. Either (A) the branch of the operand
+// normaliser that keeps a list element raw is taken only for the operators that
+// resolve elements (a test of the operator against InOp / ContainsOp guards it),
+// or (B) the range visitor's reference test looks inside lists.
+func ruleNORM5(c *Ctx) []Ob {
+	o := newObs(c, "NORM5")
+	isField := c.lookupFunc("query", "IsField")
+	if isField == nil {
+		o.add(UNDECIDED, "model", "-", "query.IsField not found")
+		return softenUndecided(o.list)
+	}
+	opConst := map[int64]string{}
+	if p := c.LibTypes[c.ModPath+"/query"]; p != nil {
+		for _, name := range []string{"InOp", "ContainsOp"} {
+			if cst, ok := p.Types.Scope().Lookup(name).(*types.Const); ok {
+				if k, exact := constant.Int64Val(cst.Val()); exact {
+					opConst[k] = name
+				}
+			}
+		}
+	}
+	isListElem := func(v ssa.Value) bool {
+		for _, og := range origins(v) {
+			if l, ok := og.(*ssa.UnOp); ok && l.Op == token.MUL {
+				if ia, ok := l.X.(*ssa.IndexAddr); ok {
+					if sl, ok := ia.X.Type().Underlying().(*types.Slice); ok {
+						if _, isI := sl.Elem().Underlying().(*types.Interface); isI {
+							return true
+						}
+					}
+				}
+			}
+		}
+		return false
+	}
+	// (B) does the range visitor's reference test look inside lists?
+	idiomB := false
+	if rv := c.libType("", "FieldRangeVisitor"); rv != nil {
+		if n, ok := rv.(*types.Named); ok {
+			for _, m := range c.visitorMethods(n) {
+				for f := range c.staticReach(m) {
+					if c.pkgRel(f) != "" {
+						continue
+					}
+					allCalls(f, func(ci ssa.CallInstruction) {
+						if g := staticCallee(ci); g != nil && c.declared(g) == isField && len(ci.Common().Args) == 1 && isListElem(ci.Common().Args[0]) {
+							idiomB = true
+						}
+					})
+				}
+			}
+		}
+	}
+	n := 0
+	for _, fn := range c.LibFuncs {
+		if c.pkgRel(fn) != "" {
+			continue
+		}
+		// IsField(elem) on a list element, and what happens on its true edge
+		allCalls(fn, func(ci ssa.CallInstruction) {
+			call, ok := ci.(*ssa.Call)
+			if !ok {
+				return
+			}
+			if g := staticCallee(call); g == nil || c.declared(g) != isField || len(call.Call.Args) != 1 || !isListElem(call.Call.Args[0]) {
+				return
+			}
+			elem := call.Call.Args[0]
+			trueEdges := guardEdges(fn, func(cond ssa.Value, branch bool) bool { return cond == ssa.Value(call) && branch })
+			// the element kept raw: appended / stored while the test is known true
+			for _, b := range fn.Blocks {
+				if !guardedBy(fn, b, trueEdges) {
+					continue
+				}
+				for _, in := range b.Instrs {
+					keeps := false
+					switch x := in.(type) {
+					case *ssa.Store:
+						if x.Val == elem || sameOrigin(x.Val, elem) {
+							keeps = true
+						}
+					}
+					if !keeps {
+						continue
+					}
+					n++
+					key := c.fname(fn) + "/list element kept as a field reference"
+					opGuard := guardEdges(fn, func(cond ssa.Value, branch bool) bool {
+						bo, ok := cond.(*ssa.BinOp)
+						if !ok || (bo.Op != token.EQL && bo.Op != token.NEQ) {
+							return false
+						}
+						k, isK := constInt(bo.Y)
+						if !isK {
+							k, isK = constInt(bo.X)
+						}
+						if !isK || opConst[k] == "" {
+							return false
+						}
+						return (bo.Op == token.EQL) == branch
+					})
+					switch {
+					case guardedBy(fn, b, opGuard):
+						o.add(OK, key, relPath(c, in.Pos()), "only for the operators that resolve the elements of their list per document (In, Contains)")
+					case idiomB:
+						o.add(OK, key, relPath(c, in.Pos()), "the range visitor refuses operands holding a reference inside a list")
+					default:
+						o.add(VIOLATED, key, relPath(c, in.Pos()), "an element of a list operand that is a field reference is kept raw whatever the operator: Eq([]interface{}{Field(\"y\")}) on an indexed field becomes the bound of an index range, and internal.Compare panics on the *field inside it (\"interface conversion: interface {} is *query.field\"); without the index the same query returns normally")
+					}
+				}
+			}
+		})
+	}
+	if n == 0 {
+		o.add(OK, "list operands", "-", "no list element is kept un-normalised")
+	}
+	return o.list
+}
+
+// ---------------------------------------------------------------- REC1
+
+// REC1: recursion that follows TYPES terminates. A function of the encoding layer
+// that calls itself with a reflect.Type derived from its own reflect.Type parameter
+// while every other argument is handed on unchanged (no value is taken apart on the
+// way down) descends along the type graph, which has cycles: type T struct{ *T; Name
+// string } embeds itself. Such a call must lie behind a test of a visited set keyed
+// by reflect.Type (a map lookup whose outcome guards the call or returns early).
+// Recursion that takes a value apart (an element, a field value) ends with the value.
+func ruleREC1(c *Ctx) []Ob {
+	o := newObs(c, "REC1")
+	isRT := func(t types.Type) bool { return namedIs(t, "reflect", "Type") }
+	n := 0
+	for _, fn := range c.LibFuncs {
+		rel := c.pkgRel(fn)
+		if (rel != "internal" && rel != "document" && rel != "util") || fn.Parent() != nil {
+			continue
+		}
+		hasRT := false
+		for _, p := range fn.Params {
+			if isRT(p.Type()) {
+				hasRT = true
+			}
+		}
+		if !hasRT {
+			continue
+		}
+		k := 0
+		allCalls(fn, func(ci ssa.CallInstruction) {
+			if g := staticCallee(ci); g == nil || c.declared(g) != fn {
+				return
+			}
+			args := ci.Common().Args
+			typeDriven := false
+			valueNarrowed := false
+			for i, p := range fn.Params {
+				if i >= len(args) {
+					continue
+				}
+				if isRT(p.Type()) {
+					if args[i] != ssa.Value(p) {
+						typeDriven = true
+					}
+					continue
+				}
+				if args[i] == ssa.Value(p) || sameOrigin(args[i], p) {
+					continue // handed on unchanged (an accumulator, the same document)
+				}
+				// a fresh container made here does not bound the recursion; a part of the input does
+				fresh := false
+				for _, og := range origins(args[i]) {
+					switch og.(type) {
+					case *ssa.MakeMap, *ssa.MakeSlice, *ssa.Alloc:
+						fresh = true
+					}
+				}
+				if !fresh {
+					valueNarrowed = true
+				}
+			}
+			if !typeDriven || valueNarrowed {
+				return
+			}
+			n++
+			k++
+			key := fmt.Sprintf("%s/type-driven self call", c.fname(fn))
+			if k > 1 {
+				key += fmt.Sprintf(" #%d", k)
+			}
+			// a visited set: a lookup in a map keyed by reflect.Type whose outcome decides a branch
+			visited := guardEdges(fn, func(cond ssa.Value, branch bool) bool {
+				for _, og := range origins(cond) {
+					var lk *ssa.Lookup
+					switch x := og.(type) {
+					case *ssa.Lookup:
+						lk = x
+					case *ssa.Extract:
+						lk, _ = x.Tuple.(*ssa.Lookup)
+					}
+					if lk == nil {
+						continue
+					}
+					if m, ok := lk.X.Type().Underlying().(*types.Map); ok && isRT(m.Key()) {
+						return true
+					}
+				}
+				return false
+			})
+			if guardedBy(fn, ci.Block(), visited) {
+				o.add(OK, key, relPath(c, ci.Pos()), "behind a test of a visited set keyed by reflect.Type")
+			} else {
+				o.add(VIOLATED, key, relPath(c, ci.Pos()), "%s calls itself with a type taken from its reflect.Type parameter and no value that gets smaller, without a visited set: a struct type that embeds itself through a pointer (type T struct{ *T; Name string }, which encoding/json handles) makes the walk recurse until the stack overflows, which kills the process", c.fname(fn))
+			}
+		})
+	}
+	if n == 0 {
+		o.add(OK, "type walks", "-", "no function of the encoding layer recurses along types alone")
+	}
+	return o.list
+}
+
+// ---------------------------------------------------------------- IMP4
+
+// IMP4: the import refuses input that is not valid UTF-8. JSON text is UTF-8, and
+// encoding/json does not fail on other bytes inside strings: it replaces each by
+// U+FFFD, so "a\xff" and "a\xfe" become the same field name (one value is lost)
+// and string values are altered. In what the import function reaches before it
+// decodes, the bytes handed to the decoder pass a unicode/utf8 validity test whose
+// negative outcome cannot reach a successful return.
+func ruleIMP4(c *Ctx) []Ob {
+	o := newObs(c, "IMP4")
+	imp := c.lookupMethod("", "DB", "ImportCollection")
+	if imp == nil {
+		o.add(UNDECIDED, "model", "-", "DB.ImportCollection not found")
+		return softenUndecided(o.list)
+	}
+	key := "DB.ImportCollection/input is valid UTF-8"
+	var fns []*ssa.Function
+	for f := range c.staticReach(imp) {
+		if c.pkgRel(f) == "" {
+			fns = append(fns, f)
+		}
+	}
+	sort.Slice(fns, func(i, j int) bool { return c.fname(fns[i]) < c.fname(fns[j]) })
+	decodes := false
+	checked := ""
+	for _, f := range fns {
+		allCalls(f, func(ci ssa.CallInstruction) {
+			full := calleeFullName(ci)
+			if full == "(*encoding/json.Decoder).Decode" || full == "encoding/json.Unmarshal" {
+				decodes = true
+			}
+			call, ok := ci.(*ssa.Call)
+			if !ok || !strings.HasPrefix(full, "unicode/utf8.Valid") {
+				return
+			}
+			// the invalid outcome never leads to success
+			invalid := guardEdges(f, func(cond ssa.Value, branch bool) bool {
+				if cond == ssa.Value(call) {
+					return !branch
+				}
+				if u, ok := cond.(*ssa.UnOp); ok && u.Op == token.NOT && u.X == ssa.Value(call) {
+					return branch
+				}
+				return false
+			})
+			ei := errResultIndex(f.Signature)
+			okAll := len(invalid) > 0
+			for _, ret := range returnsOf(f) {
+				if !guardedBy(f, ret.Block(), invalid) {
+					continue
+				}
+				if ei < 0 {
+					continue
+				}
+				if ev, has := returnedValue(ret, ei); !has || !c.provablyNonNil(f, ev, ret.Block()) {
+					okAll = false
+				}
+			}
+			// some return must be behind the invalid edge (the rejection)
+			rejects := false
+			for _, ret := range returnsOf(f) {
+				if guardedBy(f, ret.Block(), invalid) {
+					rejects = true
+				}
+			}
+			if okAll && rejects {
+				checked = relPath(c, call.Pos())
+			}
+		})
+	}
+	switch {
+	case !decodes:
+		o.add(INFO, key, relPath(c, imp.Pos()), "the import does not use encoding/json")
+	case checked != "":
+		o.add(OK, key, checked, "the input passes a unicode/utf8 validity test whose negative outcome is an error")
+	default:
+		o.add(VIOLATED, key, relPath(c, imp.Pos()), "the file is handed to encoding/json without a UTF-8 validity test: bytes that are not UTF-8 inside strings are replaced by U+FFFD instead of being refused - `[{\"a\\xff\":1,\"a\\xfe\":2}]` is imported as one field, and an ill-formed file is accepted")
+	}
+	return o.list
+}
+
+// ---------------------------------------------------------------- ADP13
+
+// ADP13: the bbolt adapter does not take a nil key from Cursor.Prev for the beginning
+// of the bucket. bbolt's Prev (v1.3.7: prev() has no empty-page loop, next() has one)
+// also returns a nil key when it steps on a leaf that the deletions of the running
+// transaction have emptied, with keys still before it; badger's iterator has no such
+// case. Every function of the adapter that calls Cursor.Prev calls it (again) inside a
+// loop, i.e. retries while the key is nil, so that a reverse scan after deletions in the
+// same transaction visits the remaining keys on both backends.
+func ruleADP13(c *Ctx) []Ob {
+	o := newObs(c, "ADP13")
+	n := 0
+	for _, fn := range c.LibFuncs {
+		if !strings.HasPrefix(c.pkgRel(fn), "store/") {
+			continue
+		}
+		var prevs []ssa.CallInstruction
+		allCalls(fn, func(ci ssa.CallInstruction) {
+			if calleeFullName(ci) == "(*go.etcd.io/bbolt.Cursor).Prev" {
+				prevs = append(prevs, ci)
+			}
+		})
+		if len(prevs) == 0 {
+			continue
+		}
+		n++
+		key := c.fname(fn) + "/a nil key from Prev is retried"
+		retried := false
+		for _, p := range prevs {
+			if !c.inLoop(p.Block()) {
+				continue
+			}
+			h, body := c.innermostLoop(p.Block())
+			if h == nil {
+				continue
+			}
+			// the loop is governed by a nil test of a key Prev returned
+			for b := range body {
+				if len(b.Instrs) == 0 {
+					continue
+				}
+				iff, ok := b.Instrs[len(b.Instrs)-1].(*ssa.If)
+				if !ok {
+					continue
+				}
+				if x, _, isNil := nilTest(iff.Cond); isNil {
+					for _, og := range origins(x) {
+						if ex, ok := og.(*ssa.Extract); ok {
+							if cl, ok := ex.Tuple.(*ssa.Call); ok && calleeFullName(cl) == "(*go.etcd.io/bbolt.Cursor).Prev" {
+								retried = true
+							}
+						}
+					}
+				}
+			}
+		}
+		if retried {
+			o.add(OK, key, relPath(c, prevs[0].Pos()), "Cursor.Prev is called in a loop governed by a nil test of the key it returned")
+		} else {
+			o.add(VIOLATED, key, relPath(c, prevs[0].Pos()), "the key returned by bbolt's Cursor.Prev is used as it is: Prev also returns nil on a leaf emptied by deletions of the running transaction, so after deleting k0300..k0699 of k0000..k0999 a reverse scan stops at k0700 and a reverse Seek(\"k0500\") finds nothing, while badger goes on to k0299")
+		}
+	}
+	if n == 0 {
+		o.add(INFO, "bbolt adapter", "-", "no call of (*bbolt.Cursor).Prev in the adapters")
+	}
+	return o.list
 }
